@@ -129,6 +129,7 @@ def run_shard(shard, tier):
                 vs = check_case(case, ctr)
             except Exception as e:
                 vs = [common.library_exception(ID, case.ident(), e)]
+            e1.track(case, vs, tier)
             ctr['evaluations'] += 1
             ctr_res['violations'].extend(vs[:2])
         for k_, v_ in ctr.items():
